@@ -45,7 +45,7 @@ def plan(tier, seed):
                           hashseed=k))
     meta = dict(
         rule=RULE,
-        require=['wide_mdd_managers', 'conversions', 'converted_roots', 'integer_assignments',
+        require=['conversions_with_dynamic_reordering', 'wide_mdd_managers', 'conversions', 'converted_roots', 'integer_assignments',
                  'mdd_op_results', 'mdd_collections', 'mdd_nodes_freed',
                  'mdd_canonicity_checks', 'complemented_roots'],
         assumptions=['integer variable of b bits has 2**b values',
@@ -242,8 +242,23 @@ def convert(ctx, spec):
             build(bdd, random_table(rng, sp), sp)     # garbage
         info = dict(dvars=dvars, bit_order=border,
                     tables=[sp.fmt(t) for t in tabs])
-        ok, _ = ctx.guard('bdd_to_mdd', convert_one, ctx, _m, bdd, sp, dvars,
-                          tabs, refs, ext, info, case=info)
+        dynamic = rng.random() < 0.3
+        if dynamic:
+            # the BDD manager reorders by itself (enabled once the
+            # functions are there; threshold at or near its size)
+            starts0 = _b.REORDER_STARTS
+            _b.REORDER_STARTS = rng.randint(2, 12)
+            bdd.configure(reordering=True)
+            _b.REORDER_STARTS = starts0
+            if rng.random() < 0.5:
+                bdd._last_len = max(1, len(bdd) // 2)
+            info['dynamic_reordering'] = True
+            ctx.counters['conversions_with_dynamic_reordering'] += 1
+        try:
+            ok, _ = ctx.guard('bdd_to_mdd', convert_one, ctx, _m, bdd, sp,
+                              dvars, tabs, refs, ext, info, case=info)
+        finally:
+            bdd.configure(reordering=False)
         ctx.case(any(len(sp.support(t)) >= 2 for t in tabs), 'convert',
                  tuple(sorted((v, d['level'], d['len'])
                               for v, d in dvars.items())),
